@@ -44,6 +44,15 @@ def noll_table(jmax):
     return n_arr, m_arr
 
 
+def noll_single(j):
+    """(n, m) of one Noll index in integer arithmetic: row n is the largest n with n(n+1)/2 < j; inside the row |m| ascends
+    (0,2,2,4,4.. for even n; 1,1,3,3.. for odd n); even j <-> m > 0.  Validated against the enumeration in self_test."""
+    n = (math.isqrt(8 * (j - 1) + 1) - 1) // 2
+    k = j - n * (n + 1) // 2 - 1                      # 0-based position in the row
+    am = 2 * ((k + 1) // 2) if n % 2 == 0 else 2 * (k // 2) + 1
+    return n, (0 if am == 0 else (am if j % 2 == 0 else -am))
+
+
 def radial(n, m, r):
     """R_n^|m|(r) with exact integer coefficients."""
     m = abs(m)
@@ -79,6 +88,8 @@ def self_test():
     for j, nn, mm in noll_rows(40):
         if j <= 2000:
             assert n[j] == nn and m[j] == mm, (j, nn, mm, n[j], m[j])
+    for j, nn, mm in noll_rows(60):
+        assert noll_single(j) == (nn, mm), (j, nn, mm, noll_single(j))
     # radial polynomials: R_n^m(1) = 1, known forms
     r = np.linspace(0, 1, 7)
     assert np.allclose(radial(2, 0, r), 2 * r ** 2 - 1)
